@@ -50,7 +50,11 @@ Proof. exact syscall_request. Qed.
 Print Assumptions C03_syscall_request.
 
 (* ... and with these request lines driving the testbench's shim (hextb.cpp handleSyscall), a clock produces exactly the
-   ISA's successor state, event and input consumption *)
+   ISA's successor state, event and input consumption.
+   Hypothesis read_safe (here and in run_ok of theorems 4 and 5): a READ must not overwrite the byte of its own SVC.
+   KNOWN FINDING, see known_findings.json (C03, kind read-overwrites-own-svc): that shape lies inside the property's
+   literal quantifier and there the RTL with the shim and the ISA differ -- the shim writes before the clock edge that
+   retires the SVC, so the RTL retires the overwritten byte.  tools/c03.py exhibits it on every run. *)
 Theorem C03_clock_refines_isa : forall (s : rstate) (inp : inputs) (a' : arch) (inp' : inputs) (ev : event),
   Inv s -> step (abs s) inp = Ok (a', inp', ev) -> in_range (fetch (abs s)) a' -> read_safe (abs s) a' ev ->
   exists s', tb_step RtlHex.design s inp = (s', inp', ev) /\ abs s' = a' /\ Inv s'.
